@@ -1036,6 +1036,48 @@ def extract_prepare_sql_flags(repo):
     return out
 
 
+def extract_rename_model_ref_walk(repo):
+    """RenameModel.simulate: how the references to the renamed model are found and rewritten - the two names that are
+    compared and assigned, the three nested loops (every app, every model, EVERY field), the test and what its branch
+    does.  Flattened to strings in source order."""
+    tree = ast.parse(_src(repo, 'django_evolution/mutations/rename_model.py'))
+    cls = _find_class(tree, 'RenameModel')
+    fn = _find_func(cls, 'simulate')
+    out = []
+    for n in fn.body:
+        if isinstance(n, ast.Assign) and ast.unparse(n.targets[0]) in ('old_related_model', 'new_related_model'):
+            out.append(ast.unparse(n))
+
+    def walk(stmts, depth):
+        for n in stmts:
+            if isinstance(n, ast.For):
+                out.append('%sfor %s in %s' % ('  ' * depth, ast.unparse(n.target), ast.unparse(n.iter)))
+                walk(n.body, depth + 1)
+            elif isinstance(n, ast.If):
+                out.append('%sif %s' % ('  ' * depth, ast.unparse(n.test)))
+                walk(n.body, depth + 1)
+                if n.orelse:
+                    out.append('%selse' % ('  ' * depth))
+                    walk(n.orelse, depth + 1)
+            else:
+                out.append('%s%s' % ('  ' * depth, ast.unparse(n)))
+    loops = [n for n in fn.body if isinstance(n, ast.For)]
+    if len(loops) != 1:
+        raise ExtractError('RenameModel.simulate: expected one top-level loop (the reference walk)')
+    walk(loops, 0)
+    return out
+
+
+def extract_add_dependency_body(repo):
+    """DependencyGraph.add_dependency: every requirement handed in is recorded - the statements of the method,
+    asserts aside"""
+    tree = ast.parse(_src(repo, 'django_evolution/utils/graph.py'))
+    cls = _find_class(tree, 'DependencyGraph')
+    fn = _find_func(cls, 'add_dependency')
+    return [ast.unparse(n) for n in fn.body if not isinstance(n, ast.Assert) and
+            not (isinstance(n, ast.Expr) and isinstance(getattr(n, 'value', None), ast.Constant))]
+
+
 def extract_found_reset_per_label(repo):
     """get_app_mutations: the flag that says "an SQL file was found for this label" is set to False INSIDE the loop
     over the labels (once per label), so that a label without an SQL file falls back to its Python module whatever
@@ -1319,6 +1361,14 @@ def regenerate(repo, outdir):
     flags['found_reset_per_label'] = frl
     parts.append('/-- get_app_mutations forgets, for every label, whether an earlier label was shipped as an SQL file -/')
     parts.append('def foundResetPerLabel : Bool := ' + ('true' if frl else 'false'))
+    rmw = extract_rename_model_ref_walk(repo)
+    flags['rename_model_ref_walk'] = rmw
+    parts.append('/-- RenameModel.simulate: the walk that re-points references to the renamed model -/')
+    parts.append('def renameModelRefWalk : List String := ' + lean_list(lean_str(x) for x in rmw))
+    adb = extract_add_dependency_body(repo)
+    flags['add_dependency_body'] = adb
+    parts.append('/-- DependencyGraph.add_dependency, asserts aside -/')
+    parts.append('def addDependencyBody : List String := ' + lean_list(lean_str(x) for x in adb))
     psf = extract_prepare_sql_flags(repo)
     flags['prepare_sql_flags'] = psf
     parts.append('/-- SQLExecutor._prepare_sql: the assignments to use_transaction / new_transaction -/')
